@@ -540,6 +540,8 @@ def render_xrff(rng, T):
         o.append(b"<instance>" + b"".join(b"<value>" + xml_esc(c) + b"</value>" for c in r) + b"</instance>\n")
     o.append(b"</instances>\n</body>\n</dataset>\n")
     data = b"".join(o)
+    if any(T["kinds"][j] == "n" and not trim(r[j]) for r in T["rows"] for j in range(nc)):
+        return data, None          # a numeric column with an empty value: std::stod throws
     # expected
     for op, a in parse_hook(T["filter"]):
         if op == "X" and a[0] < nc and a[1] < nc and types[a[0]] != types[a[1]]:
@@ -638,6 +640,86 @@ def parse_vars(s, width):
         p += width * k
         out.append((name, cat, rows))
     return out
+
+
+def parse_syms(s, width):
+    """`ok S n {v name cat rows {width tokens} | k name cat value | f name cat} P cats vars classes C n {name dom ns}`
+    -> (groups, P, cols); a group = (name, cat, rows, sorted constants (name, cat, value)) per variable"""
+    t = s.split()
+    n = int(t[2])
+    p = 3
+    groups, loose = [], []
+    for _ in range(n):
+        k = t[p]
+        if k == "v":
+            name, cat, nr = t[p + 1], t[p + 2], int(t[p + 3])
+            p += 4
+            rows = [tuple(t[p + width * r:p + width * (r + 1)]) for r in range(nr)]
+            p += width * nr
+            groups.append([name, cat, rows, []])
+        elif k == "k":
+            c = (t[p + 1], t[p + 2], t[p + 3])
+            p += 4
+            (groups[-1][3] if groups else loose).append(c)
+        else:
+            loose.append((t[p + 1], t[p + 2], "function"))
+            p += 3
+    assert t[p] == "P"
+    P = tuple(t[p + 1:p + 4])
+    assert t[p + 4] == "C"
+    nc = int(t[p + 5])
+    p += 6
+    cols = [(t[p + 3 * j], int(t[p + 3 * j + 1]), int(t[p + 3 * j + 2])) for j in range(nc)]
+    assert p + 3 * nc == len(t)
+    return [(g[0], g[1], g[2], sorted(g[3])) for g in groups], loose, P, cols
+
+
+def check_symbols(a, strong):
+    """The property's own statement about setup_terminals, read off vita's answer alone: one variable
+    per input column that has a domain, in column order, named after it, the j-th one asking for input j
+    (and a real interpreter returning that cell); the constants of a column's states right after its
+    variable, in its category; categories: undefined for no column with a variable, one per column under
+    strong typing, shared exactly by the non-string columns of equal domain under weak typing."""
+    groups, loose, P, cols = parse_syms(a, 3)
+    if loose:
+        return "setup_terminals inserted %r outside a column's group" % (loose[:2],)
+    want = [(i, c) for i, c in enumerate(cols) if i >= 1 and c[1] != 0]
+    if len(groups) != len(want):
+        return "%d variables for %d input columns with a domain" % (len(groups), len(want))
+    for j, ((name, cat, rows, ks), (i, (cname, dom, ns))) in enumerate(zip(groups, want)):
+        exp_name = cname if cname != "-" else hx(b"X%d" % i)
+        if name != exp_name:
+            return "variable %d is named %s, its column (%d) %s" % (j, name, i, exp_name)
+        if cat == "u" or int(cat) > 10 ** 6:
+            return "variable %d has no category" % j
+        for asked, direct, interp in rows:
+            if int(asked) != j:
+                return "variable %d reads input %s" % (j, asked)
+            if direct == "s" + hx(b"<out-of-range>"):
+                return "variable %d reads input %s, the example has fewer inputs" % (j, asked)
+            if interp != "-" and interp != direct:
+                return "variable %d: interpreter returns %s, the example holds %s" % (j, interp, direct)
+            if direct[0] != {1: "i", 2: "d", 3: "s"}[dom]:
+                return "variable %d of a column with domain %d evaluates to %s" % (j, dom, direct)
+        if len(ks) != ns:
+            return "column %d has %d states, %d constants follow its variable" % (i, ns, len(ks))
+        for kn, kc, kv in ks:
+            if kc != cat:
+                return "a state constant of column %d is in category %s, the variable in %s" % (i, kc, cat)
+            if kv[0] != "s" or unhx(kn) != b'"' + unhx(kv[1:]) + b'"':
+                return "state constant %s evaluates to %s" % (kn, kv)
+    cats = [(int(g[1]), c[1]) for g, (_, c) in zip(groups, want)]
+    for x, (cx, dx) in enumerate(cats):
+        for cy, dy in cats[x + 1:]:
+            if cx == cy and dx != dy:
+                return "category %d holds columns of domains %d and %d" % (cx, dx, dy)
+            if cx == cy and (strong or dx == 3):
+                return "two %s columns share category %d" % ("strongly typed" if strong else "string", cx)
+            if cx != cy and not strong and dx == dy and dx != 3:
+                return "weak typing: two columns of domain %d in categories %d and %d" % (dx, cx, cy)
+    if groups and groups[0][2] and int(P[1]) != len(groups):      # (an empty dataframe has no inputs)
+        return "%s inputs per example, %d variables" % (P[1], len(groups))
+    return None
 
 
 def first_diff(a, b):
@@ -804,7 +886,7 @@ def nontrivial(kind, ln, answer):
         d = parse_dump(answer) if answer.startswith("ok") else None
         return d is not None and len(d["examples"]) >= 1 and len(d["cols"]) >= 2
     if kind == "var":
-        return answer.startswith("ok V") and answer.split()[2] != "0"
+        return answer.startswith(("ok V", "ok S")) and answer.split()[2] != "0"
     if kind == "parse":
         return "22" in [t[4][i:i + 2] for i in range(0, len(t[4]), 2)] if t[4] != "-" else False
     if kind == "sniff":
@@ -871,19 +953,29 @@ def run(chk, replay=None):
             else:
                 cases.append(("csv", ln, ln, exp, info))
             if i % 4 == 0 and T["ncols"] >= 2:
+                # read + setup_terminals: variables, state constants, categories
                 T2 = dict(T)
                 T2["typing"] = rng.below(2)
-                T2["filter"] = "0"
-                T2["keep"] = False
-                if T2["header"] is not None:      # distinct, non-empty names (decode() works by name)
-                    T2["header"] = [b"n%d_" % j + trim(h)[:6].replace(b'"', b"q") for j, h in enumerate(T2["header"])]
+                T2["dmode"], T2["hmode"] = "explicit", "explicit"
+                via = "data"
                 if rng.chance(0.3) and T2["ncols"] >= 3:   # a column without any value has no domain
                     jb = rng.below(T2["ncols"])
                     if jb != T2["out"]:
                         T2["rows"] = [r[:jb] + [rng.choice([b"", b" "])] + r[jb + 1:] for r in T2["rows"]]
-                d2 = render_csv(rng, T2)
-                ln = csv_line(T2, d2, op="var")
-                cases.append(("var", ln, ln, None, {"T": T2}))
+                if rng.chance(0.12):      # src_problem(std::istream &, typing): default parameters
+                    via = "ctor"
+                    T2.update(dmode="sniffed", hmode="sniffed", out=0, filter="0", trim=False, keep=False,
+                              rows=T2["rows"][:17])
+                if i % 8 == 0:
+                    xd, _ = render_xrff(rng, T2)
+                    ln = "var2 xrff %s %d data %s" % (xrff_line(rng, T2, xd).split(" ", 1)[1].rsplit(" ", 1)[0],
+                                                      T2["typing"], hx(xd))
+                    cases.append(("var", ln, None, None, {"T": T2, "fmt": "xrff", "via": "data"}))
+                else:
+                    d2 = render_csv(rng, T2)
+                    ln = "var2 csv %s %d %s %s" % (csv_line(T2, d2).split(" ", 1)[1].rsplit(" ", 1)[0], T2["typing"],
+                                                   via, hx(d2))
+                    cases.append(("var", ln, ln, None, {"T": T2, "fmt": "csv", "via": via}))
             if i % 3 == 0:
                 xd, xexp = render_xrff(rng, T)
                 cases.append(("xrff", xrff_line(rng, T, xd), None, xexp, {"T": T, "xml": xd}))
@@ -905,15 +997,18 @@ def run(chk, replay=None):
     # ---- run ---------------------------------------------------------------
     cpp, deaths = S.cpp([c[1] for c in cases])
     # XRFF: the model starts from the document tinyxml2 produced
-    xi = [i for i, c in enumerate(cases) if c[0] == "xrff" and c[2] is None]
+    xi = [i for i, c in enumerate(cases) if (c[0] == "xrff" or c[1].startswith("var2 xrff")) and c[2] is None]
     if xi:
         docs, _ = S.cpp(["xdoc " + cases[i][1].split()[-1] for i in xi])
         for i, dline in zip(xi, docs):
             c = cases[i]
             toks = dline.split()
             # the model's read_xrff has no dialect / output_index: only the hook travels
-            ml = "%s %s %s" % (c[1].split()[0], c[1].split()[-2], " ".join(toks[1:])) \
-                if toks and toks[0] == "doc" else None
+            t = c[1].split()
+            if t[0] == "var2":       # var2 xrff <hook> <typing> <doc tokens>
+                ml = "var2 xrff %s %s %s" % (t[7], t[8], " ".join(toks[1:])) if toks and toks[0] == "doc" else None
+            else:
+                ml = "%s %s %s" % (t[0], t[-2], " ".join(toks[1:])) if toks and toks[0] == "doc" else None
             cases[i] = (c[0], c[1], ml, c[3], c[4])
     mi = [i for i, c in enumerate(cases) if c[2] is not None]
     model = {}
@@ -982,7 +1077,7 @@ def run(chk, replay=None):
                               "expected %r got %r" % (exp, a), rep, tags=tags)
         else:
             chk.count("oracle:none")
-        if kind == "var" and a.startswith("ok"):
+        if kind == "var" and a.startswith("ok V"):
             # each variable j (0-based) must ask for input j, and a real interpreter must return that cell
             bad = None
             for j, (name, cat, rows) in enumerate(parse_vars(a, 3)):
@@ -996,6 +1091,22 @@ def run(chk, replay=None):
                     chk.count("var:evaluations")
             if bad:
                 chk.violation("variable binding broken: " + bad, rep, tags=tags)
+        if kind == "var" and ln.startswith("var2"):
+            t = ln.split()
+            strong = t[8] == "1"
+            chk.count("var:format=%s,typing=%s,via=%s" % (t[1], "strong" if strong else "weak", t[9]))
+            chk.count("var:hook=" + hook_ops(t[7]))
+            if a.startswith("ok S"):
+                groups, _, P, cols = parse_syms(a, 3)
+                chk.count("var:evaluations", sum(len(g[2]) for g in groups))
+                chk.count("var:state_constants", sum(len(g[3]) for g in groups))
+                chk.count("var:categories=%s" % (P[0] if int(P[0]) < 4 else "4+"))
+                chk.count("var:columns_without_domain", sum(1 for c in cols[1:] if c[1] == 0))
+                for c in cols[1:]:
+                    chk.count("var:column_domain=%d" % c[1])
+                bad = check_symbols(a, strong)
+                if bad:
+                    chk.violation("setup_terminals / variable binding broken: " + bad, rep, tags=tags)
         # 2. model vs code
         if i in model:
             m = model[i]
@@ -1006,6 +1117,14 @@ def run(chk, replay=None):
                     same = first_diff(pm, pc) is None
                 else:
                     same = pm is None and pc is None and outcome_class(m) == outcome_class(a)
+            elif kind == "var" and ln.startswith("var2"):
+                if m.startswith("ok") and a.startswith("ok"):
+                    gm, lm, Pm, cm = parse_syms(m, 2)
+                    gc, lc, Pc, cc = parse_syms(a, 3)
+                    strip = lambda gs: [(n, c, [(r[0], r[1]) for r in rows], ks) for n, c, rows, ks in gs]
+                    same = strip(gm) == strip(gc) and lm == lc and Pm == Pc and cm == cc
+                else:
+                    same = outcome_class(m) == outcome_class(a) and not m.startswith("ok")
             elif kind == "var":
                 if m.startswith("ok") and a.startswith("ok"):
                     vm = [(n, [(r[0], r[1]) for r in rows]) for n, _, rows in parse_vars(m, 2)]
